@@ -139,7 +139,7 @@ def check(run):
             specs.append(build(r0, "E%d" % k, n - sum(mask), mask))
             k += 1
     r = gen.rng_for(run.seed, "c10")
-    for _ in range(500 if thorough else 100):
+    for _ in range(800 if thorough else 250):
         n = r.choice([1, 2, 3, 5, 8, 12, 16, 24])
         mask = [r.random() < 0.25 for _ in range(n)]
         if all(mask):
